@@ -483,6 +483,15 @@ FRAME_SLOTS = ['header.weight', 'header.body_size', 'header.channel',
                'protocol.minor_version', 'protocol.revision']
 
 
+def _buffer_bytes(v):
+    """The bytes of any buffer object (bytes, bytearray, memoryview of any
+    item size, array.array ...), None for everything else."""
+    try:
+        return memoryview(v).tobytes()
+    except TypeError:
+        return None
+
+
 def _frame(case, rec):
     """A hostile value in one attribute of a non-method frame (or as the
     channel): marshal raises, or the decoded frame carries that value and
@@ -541,10 +550,10 @@ def _frame(case, rec):
     if kind != 'protocol':
         exp['channel'], got['channel'] = channel, gch
     for n in exp:
+        raw = _buffer_bytes(exp[n])
         ok = _safe_eq(got[n], exp[n]) and not (
             isinstance(exp[n], float) and exp[n] != int(exp[n])) \
-            if not isinstance(exp[n], (bytes, bytearray, memoryview)) \
-            else bytes(got[n]) == bytes(exp[n])
+            if raw is None else bytes(got[n]) == raw
         if isinstance(exp[n], (str, type(None), list, dict, tuple)) and \
                 n != 'content_type':
             ok = False            # no frame attribute here holds such a type
